@@ -103,7 +103,9 @@ Ran(r) == r.end.ran
 
 \* ---------------------------------------------------------------- enrichment (computed once per row)
 \* --wip: only scenarios tagged wip are selected, the run stops at the first failure, stdout and logging are not captured
-EffCfg(c) == IF c.wip THEN [c EXCEPT !.stop = TRUE, !.cap_out = FALSE, !.cap_log = FALSE] ELSE c
+\* and setup_logging(level) called by before_all replaces the configured capture level
+EffCfg(c0) == LET c == IF c0.setuplog # 0 /\ ~c0.dry THEN [c0 EXCEPT !.loglvl = c0.setuplog] ELSE c0 IN
+              IF c.wip THEN [c EXCEPT !.stop = TRUE, !.cap_out = FALSE, !.cap_log = FALSE] ELSE c
 Enrich(r0) ==
    LET els == DOMAIN r0.prog
        anc == [el \in els |-> AncRaw(r0, el)]
@@ -497,12 +499,17 @@ C18UserLog(r) ==
        calledPairs == {sp \in r.x.called : sp[2] # 0}
    IN
    (IF r.cfg.cap_log /\ r.cfg.logclear /\ seen # {} THEN {"C18.no_leak"} ELSE {})
-   \cup (IF Ran(r) /\ ~r.cfg.cap_log /\ ~({[t |-> t, el |-> sp[1], pos |-> sp[2]] : t \in {"L", "G"}, sp \in calledPairs} \subseteq seen)
+   \* (every record that reaches the root logger's level -- WARNING unless the run's own hooks chose another one)
+   \cup (IF Ran(r) /\ ~r.cfg.cap_log /\
+            LET rootlvl == IF r.cfg.setuplog # 0 THEN r.cfg.setuplog ELSE IF r.cfg.rootlvl0 THEN 0 ELSE 30 IN
+            ~({[t |-> m[1], el |-> sp[1], pos |-> sp[2]] : m \in {x \in StepLogRecords : x[2] >= rootlvl}, sp \in calledPairs} \subseteq seen)
          THEN {"C18.passthrough"} ELSE {})
 \* logging: the user's own root handler and the root level are the same at every hook outside steps (driver probes)
 OutsideScen(r, i) == Ev(r, i).el = 0 \/ r.prog[Ev(r, i).el].kind # "scenario"
 C18Log(r) ==
-   LET hs == {i \in Ix(r) : Ev(r, i).k = "hook" /\ ~IsStepHook(Ev(r, i))}
+   \* (an after_scenario hook wrapped with the @capture decorator -- cfg.capdeco -- runs under the decorator's own capture
+   \*  handler and level: not a probe point)
+   LET hs == {i \in Ix(r) : Ev(r, i).k = "hook" /\ ~IsStepHook(Ev(r, i)) /\ ~(r.cfg.capdeco /\ Ev(r, i).name = "after_scenario")}
        \* the first hook outside scenario s after its before_scenario hook at index i (0 if none)
        nextOutside(i) == LET c == {j \in hs : j > i /\ Ev(r, j).el # Ev(r, i).el} IN
                          IF c = {} THEN 0 ELSE CHOOSE j \in c : \A k \in c : j <= k
